@@ -9,11 +9,13 @@ git -C /repo worktree add -q --detach "$WT" HEAD || exit 2
 cleanup() { git -C /repo worktree remove --force "$WT" >/dev/null 2>&1; rm -rf "$WT"; }
 trap cleanup EXIT
 demo_dir=$(python3 -c "import json,sys; print(json.load(open('$D/meta.json')).get('demo_dir','ecs').strip('/'))")
+RACE=""
+if python3 -c "import json,sys; sys.exit(0 if '-race' in json.load(open('$D/meta.json')).get('demo_run','') else 1)"; then RACE="-race"; echo "(demo is run with -race)"; fi
 cd "$WT"
 cp "$D/demo_test.go" "$WT/$demo_dir/zz_seed_demo_test.go"
 tests=$(grep -o 'func Test[A-Za-z0-9_]*' "$D/demo_test.go" | sed 's/func //' | paste -sd'|')
 echo "== demo on unchanged tree (must pass): $tests"
-if ! go test -vet=off -count=1 -run "^($tests)\$" ./$demo_dir/ > /tmp/sv_out_$$ 2>&1; then echo "RESULT: BAD demo fails on unchanged tree"; tail -20 /tmp/sv_out_$$; exit 1; fi
+if ! go test $RACE -vet=off -count=1 -run "^($tests)\$" ./$demo_dir/ > /tmp/sv_out_$$ 2>&1; then echo "RESULT: BAD demo fails on unchanged tree"; tail -20 /tmp/sv_out_$$; exit 1; fi
 if ! git apply --check "$D/patch.diff" 2>/dev/null; then echo "RESULT: BAD patch does not apply"; exit 1; fi
 git apply "$D/patch.diff"
 echo "== build + suite with patch (must pass)"
@@ -23,7 +25,7 @@ if ! go build -tags verif ./... > /tmp/sv_out_$$ 2>&1; then echo "NOTE: does not
 if ! go test -vet=off -count=1 ./... > /tmp/sv_out_$$ 2>&1; then echo "RESULT: BAD suite fails with patch"; grep -v "^ok" /tmp/sv_out_$$ | head -20; exit 1; fi
 cp "$D/demo_test.go" "$WT/$demo_dir/zz_seed_demo_test.go"
 echo "== demo with patch (must fail)"
-if go test -vet=off -count=1 -run "^($tests)\$" ./$demo_dir/ > /tmp/sv_out_$$ 2>&1; then echo "RESULT: BAD demo passes with patch"; exit 1; fi
+if go test $RACE -vet=off -count=1 -run "^($tests)\$" ./$demo_dir/ > /tmp/sv_out_$$ 2>&1; then echo "RESULT: BAD demo passes with patch"; exit 1; fi
 grep -m3 -E "^\s+.*_test.go|panic|--- FAIL" /tmp/sv_out_$$
 echo "RESULT: OK"
 rm -f /tmp/sv_out_$$
